@@ -116,7 +116,8 @@ def check(prop, tier, seed):
     corr_bad, corr_errors = [], []
     if model_files_ok:
         corr_bad, corr_errors = C.run_shards(
-            prop, mod.HEADER, mod.CASE_TYPE, mod.MODEL, mod.EQB, cases, getattr(mod, "SHARD", 400)
+            prop, mod.HEADER, mod.CASE_TYPE, mod.MODEL, mod.EQB, cases, getattr(mod, "SHARD", 400),
+            ood_term=getattr(mod, "OOD", None)
         )
     else:
         corr_errors = ["model files did not compile: " + mk_log[-2000:]]
@@ -210,6 +211,7 @@ def check(prop, tier, seed):
             "samples": [c["input"] for c in cases[n_corpus : n_corpus + 3]] + [c["input"] for c in cases[-2:]],
             "exhaustive": bool(getattr(mod, "EXHAUSTIVE", {}).get(tier, False)),
             "correspondence_mismatches": len(corr_bad),
+            "out_of_domain": C.LAST_OOD[0],
             "direct_oracle_failures": len(oracle_failures),
             "known_findings_seen": sorted(seen_known),
             "input_distribution": dist,
